@@ -156,13 +156,10 @@ Definition ginv (st : gstate) : Prop := snap_ok st /\ bound_visible st.
 Definition reg_ok (st : gstate) (L : layout) : Prop :=
   match lookup (l_id L) (ltab st) with
   | Some ns => ns = l_names L
-  | None => lookup (l_id L) (snap st) = None /\ l_id L <> cur st
+  | None => lookup (l_id L) (snap st) = None /\ (l_id L <> cur st \/ l_names L = [])
   end.
-Definition top_is_current (st : gstate) : Prop :=
-  match frames st with
-  | f :: _ => f_fn f = cur st /\ nodupb (names_of st (f_fn f)) = true
-  | [] => True
-  end.
+(* the layout that is loaded has pairwise distinct names *)
+Definition top_is_current (st : gstate) : Prop := nodupb (names_of st (cur st)) = true.
 
 Definition op_ok (st : gstate) (o : op) : Prop :=
   match o with
@@ -216,7 +213,8 @@ Lemma names_of_register_cur st L : reg_ok st L -> names_of (register st L) (cur 
 Proof.
   intro R. rewrite names_of_register by exact R. destruct (cur st =? l_id L) eqn:E; [|reflexivity].
   apply N.eqb_eq in E. unfold names_of, reg_ok in *.
-  destruct (lookup (l_id L) (ltab st)) as [ns|] eqn:El; [now rewrite E, El|]. destruct R; congruence.
+  destruct (lookup (l_id L) (ltab st)) as [ns|] eqn:El; [now rewrite E, El|].
+  destruct R as [_ [R|R]]; [congruence|]. rewrite E, El. now rewrite R.
 Qed.
 
 Lemma ginv_register st L : reg_ok st L -> ginv st -> ginv (register st L).
@@ -327,11 +325,8 @@ Lemma ginv_with_frames st f : ginv st -> ginv (with_frames st f).
 Proof. intros [[S1 S2] B]. split; [split|]; auto. Qed.
 
 Lemma ginv_sync_current st : top_is_current st -> ginv st ->
-  ginv (sync_current st) /\ (forall n, bound st n -> bound (sync_current st) n).
-Proof.
-  intros T I. unfold sync_current, top_is_current in *. destruct (frames st) as [|f r]; [auto|].
-  destruct T as [E ND]. apply ginv_sync; auto. now rewrite E.
-Qed.
+  ginv (sync_loaded st) /\ (forall n, bound st n -> bound (sync_loaded st) n).
+Proof. intros T I. unfold sync_loaded, top_is_current in *. apply ginv_sync; auto. Qed.
 
 (* ------------------------------------------------------------------ one operation *)
 Lemma ginv_ext st st' :
@@ -348,8 +343,8 @@ Qed.
 
 Lemma top_is_current_register st L : reg_ok st L -> top_is_current st -> top_is_current (register st L).
 Proof.
-  intros R T. unfold top_is_current in *. cbn [frames register cur]. destruct (frames st) as [|f r]; [exact I|].
-  destruct T as [E ND]. split; [exact E|]. rewrite E. rewrite names_of_register_cur by exact R. now rewrite <- E.
+  intros R T. unfold top_is_current in *. change (cur (register st L)) with (cur st).
+  now rewrite names_of_register_cur.
 Qed.
 
 Lemma ginv_clear_snap st g : ginv st ->
@@ -401,27 +396,24 @@ Proof.
     cbn [op_ok] in G. destruct G as [R T].
     pose proof (ginv_register st L R I) as I1. pose proof (top_is_current_register st L R T) as T1.
     unfold call_enter. set (st1 := register st L) in *.
-    destruct (negb (l_id L =? 0) && negb (l_id L =? top_gmap st1)).
-    + destruct (negb (top_gmap st1 =? 0)).
-      * destruct (ginv_sync_current st1 T1 I1) as [I2 B2].
-        destruct (ginv_prepare (sync_current st1) (l_id L) I2) as [I3 E3].
-        split; [now apply ginv_with_frames|].
-        intros n Hb. unfold bound in *. cbn [gmap with_frames]. rewrite E3. apply B2. exact Hb.
-      * destruct (ginv_prepare st1 (l_id L) I1) as [I3 E3].
-        split; [now apply ginv_with_frames|]. intros n Hb. unfold bound in *. cbn [gmap with_frames]. rewrite E3. exact Hb.
+    destruct (negb (l_id L =? 0) && negb (l_id L =? cur st1)).
+    + destruct (ginv_sync_current st1 T1 I1) as [I2 B2].
+      destruct (ginv_prepare (sync_loaded st1) (l_id L) I2) as [I3 E3].
+      split; [now apply ginv_with_frames|].
+      intros n Hb. unfold bound in *. cbn [gmap with_frames]. rewrite E3. apply B2. exact Hb.
     + split; [now apply ginv_with_frames|auto].
   - (* OReturn *)
     cbn [op_ok] in G. unfold do_return. destruct (frames st) as [|f rest] eqn:Ef; cbn [fst]; [auto|].
     set (cg := match rest with c :: _ => f_gmap c | [] => 0 end).
-    set (needs := negb (f_gmap f =? 0) && negb (f_gmap f =? cg)).
-    set (bsync := needs && (negb (cg =? 0) || RETURN_SYNCS_WHEN_LEAVING && match rest with [] => true | _ :: _ => false end)).
-    assert (H1 : ginv (if bsync then sync_current st else st) /\
-                 (forall n, bound st n -> bound (if bsync then sync_current st else st) n)).
+    set (needs := negb (cg =? 0) && negb (cg =? cur st)).
+    set (bsync := needs || RETURN_SYNCS_WHEN_LEAVING && match rest with [] => true | _ :: _ => false end).
+    assert (H1 : ginv (if bsync then sync_loaded st else st) /\
+                 (forall n, bound st n -> bound (if bsync then sync_loaded st else st) n)).
     { destruct bsync; [apply ginv_sync_current; auto|auto]. }
-    destruct H1 as [I2 B2]. set (st1 := if bsync then sync_current st else st) in *.
+    destruct H1 as [I2 B2]. set (st1 := if bsync then sync_loaded st else st) in *.
     destruct rest as [|c rest']; cbn [fst].
     + split; [now apply ginv_with_frames|]. intros n Hb. now apply B2.
-    + destruct (needs && negb (cg =? 0)).
+    + destruct needs.
       * destruct (ginv_prepare (with_frames st1 (c :: rest')) (f_fn c) (ginv_with_frames _ _ I2)) as [I3 E3].
         split; [exact I3|]. intros n Hb. unfold bound in *. rewrite E3. cbn [gmap with_frames]. now apply B2.
       * split; [now apply ginv_with_frames|]. intros n Hb. now apply B2.
@@ -505,14 +497,14 @@ Proof.
   unfold prepare. destruct (id =? cur st); [reflexivity|].
   destruct (names_of st id); [reflexivity|]. destruct (lookup id (snap st)); reflexivity.
 Qed.
-Lemma frames_sync_current st : frames (sync_current st) = frames st.
-Proof. unfold sync_current. destruct (frames st) eqn:E; cbn; exact E. Qed.
+Lemma frames_sync_loaded st : frames (sync_loaded st) = frames st.
+Proof. reflexivity. Qed.
 
 Lemma frames_call_enter st L : frames (call_enter st L) = mkFrame (l_id L) (l_id L) false :: frames st.
 Proof.
   unfold call_enter. cbn [frames with_frames]. f_equal.
-  destruct (negb (l_id L =? 0) && negb (l_id L =? top_gmap (register st L))); [|reflexivity].
-  rewrite frames_prepare. destruct (negb (top_gmap (register st L) =? 0)); [rewrite frames_sync_current|]; reflexivity.
+  destruct (negb (l_id L =? 0) && negb (l_id L =? cur (register st L))); [|reflexivity].
+  rewrite frames_prepare. reflexivity.
 Qed.
 
 Lemma frames_do_return st : frames (fst (do_return st)) = tl (frames st).
@@ -675,9 +667,13 @@ Proof. exact (conj host_call_after_failure host_write_kept). Qed.
 Definition L_f : layout := mkLayout 2 [None; Some 1].          (* fn f(x) { g = g + x; return g } *)
 Definition L_in1 : layout := mkLayout 3 [Some 1; Some 2].      (* let mut g = 7; fn f ... *)
 Definition L_in2 : layout := mkLayout 4 [Some 2; Some 1].      (* println(f(5)); println(g) *)
+Definition L_apply : layout := mkLayout 0 [].                  (* fn apply(cb, x) { return cb(x) }: no globals *)
 Definition good_ops : list op :=
   [OClearFrames; OMutability []; OExecute L_in1; OSetIdx 0 7; OSetIdx 1 2000001; OReturn; OSyncNames L_in1;
    OClearFrames; OMutability []; OExecute L_in2; OCall L_f; OAddIdx 1 5; OPrintIdx 1 0; OReturn; OPrintIdx 1 0; OReturn; OSyncNames L_in2;
+   (* g = 20; apply(f, 2) through a function without globals; println(g) *)
+   OClearFrames; OMutability []; OExecute L_in2; OSetIdx 1 20; OCall L_apply; OCall L_f; OAddIdx 1 2; OPrintIdx 1 0; OReturn; OReturn;
+   OPrintIdx 1 0; OAddIdx 1 (-10); OReturn; OSyncNames L_in2;
    OClearFrames; OMutability []; OExecute L_in2; OCall L_f; OAddIdx 1 1; OFail;
    OClearFrames; OMutability []; OExecute L_in2; OPrintIdx 1 0; OReturn; OSyncNames L_in2].
 
@@ -698,10 +694,10 @@ Qed.
 Definition reg_okb (st : gstate) (L : layout) : bool :=
   match lookup (l_id L) (ltab st) with
   | Some ns => names_eqb ns (l_names L)
-  | None => (match lookup (l_id L) (snap st) with None => true | Some _ => false end) && negb (l_id L =? cur st)
+  | None => (match lookup (l_id L) (snap st) with None => true | Some _ => false end)
+            && (negb (l_id L =? cur st) || match l_names L with [] => true | _ => false end)
   end.
-Definition top_is_currentb (st : gstate) : bool :=
-  match frames st with f :: _ => (f_fn f =? cur st) && nodupb (names_of st (f_fn f)) | [] => true end.
+Definition top_is_currentb (st : gstate) : bool := nodupb (names_of st (cur st)).
 Definition op_okb (st : gstate) (o : op) : bool :=
   match o with
   | OExecute L => reg_okb st L
@@ -718,13 +714,12 @@ Lemma reg_okb_sound st L : reg_okb st L = true -> reg_ok st L.
 Proof.
   unfold reg_okb, reg_ok. destruct (lookup (l_id L) (ltab st)); [apply names_eqb_eq|].
   intro H. apply andb_true_iff in H as [H1 H2]. destruct (lookup (l_id L) (snap st)); [discriminate|].
-  split; [reflexivity|]. apply negb_true_iff in H2. now apply N.eqb_neq.
+  split; [reflexivity|]. apply orb_true_iff in H2 as [H2|H2].
+  - left. apply negb_true_iff in H2. now apply N.eqb_neq.
+  - right. destruct (l_names L); [reflexivity|discriminate].
 Qed.
 Lemma top_is_currentb_sound st : top_is_currentb st = true -> top_is_current st.
-Proof.
-  unfold top_is_currentb, top_is_current. destruct (frames st); [auto|].
-  intro H. apply andb_true_iff in H as [H1 H2]. apply N.eqb_eq in H1. auto.
-Qed.
+Proof. auto. Qed.
 Lemma ops_okb_sound : forall ops st, ops_okb st ops = true -> ops_ok st ops.
 Proof.
   induction ops as [|o r IH]; intros st H; cbn [ops_okb ops_ok] in *; [exact I|].
@@ -742,3 +737,15 @@ Lemma good_ops_obs :
   r_obs (run_ops ginit (firstn 17 good_ops) [] [] false) = [12; 12]%Z /\
   glookup (gmap (final ginit good_ops)) 1 = Some 12%Z /\ bound (final ginit (firstn 17 good_ops)) 1.
 Proof. vm_compute. repeat split; discriminate. Qed.
+
+(* the input `g = 20; println(apply(f, 2)); println(g); g = g - 10` where apply has no globals of its
+   own (layout id 0) and f mutates g: the callee sees 20, the caller sees the callee's write, and
+   after the input both views hold 12 *)
+Lemma callback_through_function_without_globals :
+  r_obs (run_ops ginit (firstn 31 good_ops) [] [] false) = [12; 12; 22; 22]%Z /\
+  glookup (gmap (final ginit (firstn 31 good_ops))) 1 = Some 12%Z /\
+  gnth (gidx (final ginit (firstn 31 good_ops))) 1 = Some 12%Z /\
+  cur (final ginit (firstn 31 good_ops)) = 4 /\
+  forallb (balanced 0) [firstn 7 good_ops; firstn 10 (skipn 7 good_ops); firstn 14 (skipn 17 good_ops)] = true.
+Proof. vm_compute. repeat split; reflexivity. Qed.
+
